@@ -30,16 +30,18 @@ type c19op struct {
 	Item int    `json:"item"`
 	Src  string `json:"src"`
 	Text string `json:"text,omitempty"`
+	Var  int    `json:"text_variant,omitempty"`
 }
 
 type c19 struct {
 	env    *Env
 	pool   []Item
-	solo   []Outcome // compile-run outcome of pool[i]
-	soloC  []Outcome // compile-only outcome
-	soloF  []Outcome // runfiles outcome (shared program on the item's file)
-	steps  []uint64  // solo steps of compile-run
-	files  []string  // file holding pool[i].Text
+	solo   []Outcome   // compile-run outcome of pool[i]
+	soloC  []Outcome   // compile-only outcome
+	soloF  []Outcome   // runfiles outcome (shared program on the item's file)
+	soloV  [][]Outcome // Run outcome of the compiled program on each text variant
+	steps  []uint64    // solo steps of compile-run
+	files  []string    // file holding pool[i].Text
 	worldR string
 	// monitorOff: the tree uses synchronisation the own HB monitor does not
 	// model (atomics, sync.Map, sync.Pool); the race detector still decides.
@@ -142,11 +144,16 @@ func (c *c19) Init(env *Env) error {
 		v, oc := doCompile(it.Src)
 		c.soloC = append(c.soloC, oc)
 		var of Outcome
+		var ov []Outcome
 		if v != nil {
 			of, _ = doRunFiles(v, []string{fn}, engine.NOTHING, c.worldR)
+			for _, tx := range textVariants(it.Text) {
+				ov = append(ov, doRun(v, tx))
+			}
 		} else {
 			of = oc
 		}
+		c.soloV = append(c.soloV, ov)
 		simrt.Stop()
 		c.soloF = append(c.soloF, of)
 	}
@@ -226,7 +233,13 @@ func (c *c19) Run(ctx *RunCtx) *RunResult {
 				item = shared[item%nshared]
 			}
 			it := c.pool[item]
-			work[ti] = append(work[ti], c19op{Kind: kindNames[kind], Item: item, Src: it.Src, Text: it.Text})
+			op := c19op{Kind: kindNames[kind], Item: item, Src: it.Src, Text: it.Text}
+			if kind == 1 {
+				// the same shared program is run on different texts by different callers
+				op.Var = t.Draw(3)
+				op.Text = textVariants(it.Text)[op.Var]
+			}
+			work[ti] = append(work[ti], op)
 			estSteps += c.steps[item]
 		}
 	}
@@ -380,7 +393,7 @@ func (c *c19) Run(ctx *RunCtx) *RunResult {
 			got := outs[ti][j]
 			want := c.want(op)
 			evh = mix(evh, hashStr(got.String()))
-			opsig = append(opsig, mix(hashStr(op.Kind), uint64(op.Item)))
+			opsig = append(opsig, mix(hashStr(op.Kind), uint64(op.Item), uint64(op.Var)))
 			if got.Class == "abort" {
 				addV("liveness", "abort:"+got.Detail, fmt.Sprintf("task %d op %d (%s %q) was aborted: %s", ti, j, op.Kind, trunc(op.Src, 60), got.Detail))
 				continue
@@ -396,7 +409,7 @@ func (c *c19) Run(ctx *RunCtx) *RunResult {
 	simrt.Solo()
 	for ti := range work {
 		for _, op := range work[ti] {
-			id := op.Kind + fmt.Sprint(op.Item)
+			id := op.Kind + fmt.Sprint(op.Item, "/", op.Var)
 			if seen[id] {
 				continue
 			}
@@ -447,10 +460,10 @@ func (c *c19) want(op c19op) Outcome {
 	case "compile-run":
 		return c.solo[op.Item]
 	case "run-shared":
-		if c.soloC[op.Item].Class != "ok" {
+		if c.soloC[op.Item].Class != "ok" || len(c.soloV[op.Item]) <= op.Var {
 			return c.soloC[op.Item]
 		}
-		return c.solo[op.Item]
+		return c.soloV[op.Item][op.Var]
 	case "compile":
 		return c.soloC[op.Item]
 	default:
